@@ -15,6 +15,7 @@ namespace sim {
 ElemLedger g_elems;
 ReallocExpect g_reallocExpect = {false, 0, {0, 0}, 0};
 unsigned g_zeroSign = 0;
+unsigned g_pairVariant = 0;
 
 // ------------------------------------------------------------------------------------------------ names / registry
 static const char *kVecOpNames[] = {
@@ -315,13 +316,25 @@ struct Runner {
 
   Runner(const Plan &p, const VecFamily &f, Stats *s) : plan(p), fam(f), stats(s) {}
 
-  static void *raw_alloc(const VecType &t) {
-    size_t al = t.objAlign < 64 ? 64 : t.objAlign;
-    size_t sz = (t.objSize + al - 1) / al * al;
+  // Container objects live in harness-owned raw slots.  A slot is aligned for the container type and for nothing more: the block is
+  // 256-aligned and the object is placed objAlign * k bytes into it (k = 0..3 in turn), so that a layout that silently depends on
+  // a stronger alignment of `this` shows when the object is constructed or relocated somewhere else.
+  std::vector<std::pair<void *, void *>> rawBlocks;  // (object address, block)
+  unsigned rawCounter = 0;
+  void *raw_alloc(const VecType &t) {
+    size_t off = (rawCounter++ % 4) * t.objAlign;
+    size_t sz = (off + t.objSize + 255) / 256 * 256;
     void *p = nullptr;
-    if (posix_memalign(&p, al, sz) != 0) abort();
+    if (posix_memalign(&p, 256, sz) != 0) abort();
     memset(p, 0xEE, sz);
-    return p;
+    void *obj = (char *)p + off;
+    rawBlocks.push_back(std::make_pair(obj, p));
+    return obj;
+  }
+  void raw_free(void *obj) {
+    for (size_t i = 0; i < rawBlocks.size(); ++i)
+      if (rawBlocks[i].first == obj) { free(rawBlocks[i].second); rawBlocks.erase(rawBlocks.begin() + i); return; }
+    abort();
   }
 
   bool arith = false;
@@ -448,7 +461,7 @@ struct Runner {
     RunOut out;
     if (!G.viol.set()) teardown();
     else {
-      for (Slot &s : slots) free(s.obj);  // abandon (possibly corrupt) containers without running destructors
+      for (Slot &s : slots) raw_free(s.obj);  // abandon (possibly corrupt) containers without running destructors
     }
     out.viol = G.viol;
     out.hash = G.trHash;
@@ -469,7 +482,7 @@ struct Runner {
     G.begin_op((int)plan.ops.size(), -1, 1 << 19, "teardown");
     for (Slot &s : slots) {
       s.type->destroy(s.obj);
-      free(s.obj);
+      raw_free(s.obj);
       s.obj = nullptr;
     }
     if (G.viol.set()) return;
@@ -684,7 +697,8 @@ struct Runner {
         const VecType &u = *w->type;
         bool possible = sz <= u.limit && w->model.size() <= t.limit;
         if (!possible) {
-          if (!t.limitThrows || !u.limitThrows) return false;
+          // exceeding a vector with the unchecked policy is undefined; a throwing partner that cannot take the other's elements must throw
+          if ((w->model.size() > t.limit && !t.limitThrows) || (sz > u.limit && !u.limitThrows)) return false;
           expectThrow = 3;
         }
         return true;
@@ -1001,7 +1015,7 @@ struct Runner {
         default: break;
       }
     }
-    if ((io.kind == V_MOVE_ASSIGN || io.kind == V_CTOR_MOVE || io.kind == V_CTOR_FROM_VEC) && srcHeap && wpre.size && !selfOp) {
+    if ((io.kind == V_MOVE_ASSIGN || io.kind == V_CTOR_MOVE || io.kind == V_CTOR_FROM_VEC) && srcHeap && !selfOp) {  // also an empty source that owns a buffer
       watchTransfer = true;
       G.watchLo = (uintptr_t)wpre.data; G.watchHi = G.watchLo + wpre.size * w->type->elemSize;
     }
@@ -1028,13 +1042,14 @@ struct Runner {
       void *fresh = raw_alloc(t);
       memcpy(fresh, s.obj, t.objSize);
       memset(s.obj, 0xA5, t.objSize);
-      free(s.obj);
+      raw_free(s.obj);
       s.obj = fresh;
       res.outcome = OUT_RETURNED;
       relocExecuted = true;
       cell(14, s.typeIdx, cls);
       if (stats) stats->probe(pre.inside ? "relocate_inline_state" : "relocate_heap_state");
     } else if (io.kind == V_SWAP2) {
+      g_pairVariant = (io.variant >> 1) & 1;
       fam.pairs[s.typeIdx][w->typeIdx].swap2(s.obj, w->obj, res);
     } else if (io.kind == V_CTOR_FROM_VEC) {
       fam.pairs[s.typeIdx][w->typeIdx].ctorFromVec(s.obj, w->obj, res);
